@@ -1959,7 +1959,12 @@ impl<'p> Evaluator<'_, 'p> {
 
                     self.state_stack
                         .push(State::FnFallible(Self::do_std_flat_map_string_part));
-                    self.execute_call(&func, args_thunks);
+                    self.check_thunk_args_and_execute_call(
+                        &func,
+                        &[args_thunks[0].view()],
+                        &[],
+                        None,
+                    )?;
                 }
 
                 Ok(())
@@ -1975,7 +1980,12 @@ impl<'p> Evaluator<'_, 'p> {
 
                     self.state_stack
                         .push(State::FnFallible(Self::do_std_flat_map_array_part));
-                    self.execute_call(&func, args_thunks);
+                    self.check_thunk_args_and_execute_call(
+                        &func,
+                        &[args_thunks[0].view()],
+                        &[],
+                        None,
+                    )?;
                 }
 
                 Ok(())
